@@ -141,9 +141,9 @@ type Sim struct {
 	ltimers []*Timer
 	tseq    int
 	afn     int
-	evq    []*simEvent
-	evseq  int
-	ctxN   int
+	evq     []*simEvent
+	evseq   int
+	ctxN    int
 
 	log     []Event
 	logHash uint64
